@@ -147,7 +147,41 @@ Lemma reachable_last_sample_ : forall ops p w st t s h, exec c load ops (initial
 Proof.
   intros ops p w st t s h He E. destruct (exec_inv c load ops _ _ (initial_inv c load p w) He) as (_ & Hl & _). rewrite E in Hl. exact Hl.
 Qed.
+(** how many instants a schedule can have on record: every run adds at most round(T/dt) instants (one more when it starts a fresh
+    simulation), a reset empties the history, nothing else touches it *)
+Definition run_budget (o : @sop A) : nat :=
+  match o with
+  | SRun dt T _ _ => match q_ratio T dt with Ok x => S (Z.to_nat (round_half_even x)) | Err _ => 0 end
+  | _ => 0
+  end.
+Definition budget (ops : list (@sop A)) : nat := fold_right (fun o acc => run_budget o + acc) 0 ops.
+Lemma run_length_bound_ ctl stop dt T st st' : run c load ctl stop dt T st = Ok st' ->
+  length (y_hist st') <= length (y_hist st) + run_budget (SRun dt T ctl stop).
+Proof.
+  intros H. destruct (run_spec _ _ _ _ _ _ H) as (t0 & x & new & Hx & Hap & Hh). cbn [run_budget]. rewrite Hx.
+  assert (Hl := ap_len _ _ _ Hap). rewrite grid_from_length in Hl.
+  destruct (y_hist st) as [|[tl sl] h].
+  - destruct Hh as (_ & s0 & -> & _). rewrite app_length. cbn. lia.
+  - destruct Hh as (_ & ->). rewrite app_length. cbn [length]. lia.
+Qed.
+Theorem exec_length_bound_ ops : forall st st', exec c load ops st = Ok st' -> length (y_hist st') <= length (y_hist st) + budget ops.
+Proof.
+  induction ops as [|o ops IH]; intros st st' H; cbn [exec] in H.
+  - injection H as <-. cbn. lia.
+  - unfold bind in H. destruct (step_op c load st o) as [st1|] eqn:E; [|discriminate].
+    specialize (IH _ _ H). cbn [budget fold_right]. fold (budget ops).
+    assert (H1 : length (y_hist st1) <= length (y_hist st) + run_budget o).
+    { destruct o as [dt T ctl stop| | |p w|x]; cbn [step_op] in E.
+      - apply run_length_bound_. exact E.
+      - unfold reset in E. destruct (rev (y_hist st)) as [|[t s] r]; [discriminate|]. unfold bind in E.
+        destruct (live_of s); [|discriminate]. injection E as <-. cbn. lia.
+      - injection E as <-. cbn. lia.
+      - destruct (y_hist st) eqn:Eh; [|discriminate]. injection E as <-. cbn. lia.
+      - unfold bind in E. destruct (set_pwm x) as [pw|]; [|discriminate]. injection E as <-. cbn. lia. }
+    lia.
+Qed.
 End Run.
 Definition run_records_grid := @run_records_grid_.
 Definition reachable_lengths := @reachable_lengths_.
 Definition reachable_last_sample := @reachable_last_sample_.
+Definition exec_length_bound := @exec_length_bound_.
